@@ -117,7 +117,7 @@ def run(ctx):
                                        "alpha_beta": a3, "plain": p3})
             violations.append({"replay": rp, "no_input": True})
             break
-    dcases = [{"group": "deep", "fen": f, "moves": [], "specs": ["d%dx" % dd]} for f in deep_pos]
+    dcases = [{"group": "deep", "fen": f, "moves": [], "specs": ["d%dxq" % dd]} for f in deep_pos]
     deng = S.run_engine(dcases)
     ndeep = 0
     for f, rv, e in zip(deep_pos, ref_deep, deng):
@@ -148,7 +148,13 @@ def run(ctx):
     pjobs = [(f, d) for f in pawn_pos for d in pd]
     with ThreadPoolExecutor(max_workers=C.NPROC) as ex:
         pref = list(ex.map(ref, [(f, "%da" % d) for f, d in pjobs]))
-    peng = S.run_engine([{"group": "deep", "fen": f, "moves": [], "specs": ["d%dx" % d]} for f, d in pjobs])
+    # (q: the cache-write trace is not recorded — a run-away search must not exhaust memory; each engine run is bounded in time)
+    peng = []
+    for f, d in pjobs:
+        try:
+            peng += S.run_engine([{"group": "deep", "fen": f, "moves": [], "specs": ["d%dxq" % d]}], timeout=60)
+        except Exception:
+            peng.append({"results": []})
     npawn = 0
     for (f, d), rv, e in zip(pjobs, pref, peng):
         er = e["results"][0] if e["results"] else None
